@@ -13,6 +13,7 @@ import (
 	"runtime"
 	"runtime/debug"
 	"sort"
+	"strconv"
 	"strings"
 	"time"
 
@@ -297,6 +298,19 @@ func Main(spec *Spec) {
 	if *mode == "replay" {
 		sim.HangAfter = 6 * time.Second // a single case takes milliseconds
 	}
+	procRun := -1
+	if *mode == "process" {
+		// replay of a whole worker process up to and including one run (sim.ProcRef)
+		c, err := sim.LoadCase(*casePath)
+		if err != nil || c.Proc == nil {
+			fmt.Fprintln(os.Stderr, "process replay: no process reference in", *casePath, err)
+			os.Exit(2)
+		}
+		sd, _ := strconv.ParseUint(c.Proc.Seed, 10, 64)
+		*seed, *worker, *tier = sd, c.Proc.Worker, c.Proc.Tier
+		*maxRuns, procRun = c.Proc.Run+1, c.Proc.Run
+		*mode = "explore"
+	}
 	sim.StartWatchdog(out, func() {
 		out.WallMs = time.Since(start).Milliseconds()
 		sim.WriteJSON(*outPath, out)
@@ -348,6 +362,7 @@ func Main(spec *Spec) {
 		c.Property = spec.ID
 		c.Engine = "A"
 		c.Seed = rs >> 12 // informational; 52 bits so that JSON round trips are exact
+		c.Proc = &sim.ProcRef{Seed: strconv.FormatUint(*seed, 10), Worker: *worker, Run: ri, Tier: *tier}
 		run, v := Exec(spec, c, nil, false, false, out)
 		res := run.Res
 		out.Runs++
@@ -387,10 +402,13 @@ func Main(spec *Spec) {
 			}
 			out.RunHashes = append(out.RunHashes, fmt.Sprintf("%d:%s:%s", rs, c.LogHash, verdict))
 		}
-		if v != nil {
+		if v != nil && (procRun < 0 || ri == procRun) {
 			c.Violation = v
 			if v.Class == "data_race" {
 				out.RaceReports++
+			}
+			if procRun >= 0 {
+				c.ReplayMode = "process"
 			}
 			out.AddViolation(c)
 		} else if len(out.Samples) < 2 && res.MaxOpen >= 2 && res.Preemptions >= 1 {
